@@ -28,6 +28,7 @@ EXTENDS KlevConc
 CONSTANTS NLook,      \* lookups per behaviour
           NextFirst,  \* TRUE: the code with fix a5c0795
           EmptyHeadGuard, \* TRUE: the code with fixes 86dfaca / 647863d (no hand-off into a head seen empty)
+          GuardBroad, \* TRUE: the over-broad repair 86dfaca (no hand-off at all once a head was seen empty) = seeded change S137
           NSync,      \* Sync calls per behaviour
           SyncHoldsLock \* TRUE: Sync fsyncs under writerMu (the code); FALSE: seeded change S132 (lock released first)
 
@@ -101,7 +102,7 @@ KGbt ==
   /\ LET i == kst.i  its == VisAt(i)  p == IxT(its, kst.arg) IN
      CASE p = -1 -> IF i = 1 THEN GbtFin(Er("Invalid")) ELSE KMove([kst EXCEPT !.i = i - 1, !.eh = TRUE])
        [] p = -2 -> IF i = 1 THEN GbtFin(Ok(its[1])) ELSE KMove([kst EXCEPT !.i = i - 1])
-       [] p = -3 -> IF i < NR /\ ~(EmptyHeadGuard /\ kst.eh /\ i = NR - 1)
+       [] p = -3 -> IF i < NR /\ ~(EmptyHeadGuard /\ kst.eh /\ (GuardBroad \/ i = NR - 1))
                     THEN KMove([kst EXCEPT !.pc = "gbt_next"])      \* hand-off: the NEXT segment's oldest message
                     ELSE GbtFin(Er("NotFound"))
        [] OTHER -> IF i > 1 /\ its[p] = SegAt(i)
